@@ -86,8 +86,18 @@ def g_del(rng, not_fn=None):
     return "delg %d" % f
 
 
-def g_action(rng, self_fn):
+def g_action(rng, self_fn, glob=False):
     k = rng.random()
+    if glob:
+        # actions that need no connection object (cases that use `firetimed0`)
+        if k < 0.45:
+            return g_add(rng, "g")
+        if k < 0.85:
+            f = rng.randrange(NF)
+            while f == self_fn and rng.random() >= 0.03:
+                f = rng.randrange(NF)
+            return "delg %d" % f
+        return "tick %d" % rng.choice(TICKS)
     if k < 0.40:
         return g_add(rng, "hhhiitg")
     if k < 0.80:
@@ -99,7 +109,7 @@ def g_action(rng, self_fn):
     return "tick %d" % rng.choice(TICKS)
 
 
-def g_beh(rng, f=None, u=None, plain=False):
+def g_beh(rng, f=None, u=None, plain=False, glob=False):
     f = rng.randrange(NF) if f is None else f
     u = rng.randrange(NU) if u is None else u
     steps = []
@@ -107,7 +117,7 @@ def g_beh(rng, f=None, u=None, plain=False):
         s = "r" if rng.random() < 0.25 else "k"
         if not plain:
             for _ in range(rng.choice([0, 0, 1, 1, 2, 3])):
-                s += " " + g_action(rng, f)
+                s += " " + g_action(rng, f, glob)
         steps.append(s)
     return "beh %d %d %s" % (f, u, " ; ".join(steps))
 
@@ -122,16 +132,17 @@ def gen_case(rng, maxlen):
     ops = []
     mode = rng.random()
     plain = mode < 0.15           # non-mutating scripts only
+    glob = 0.15 <= mode < 0.27    # callbacks act on the context only: the timers may run without any connection
     for _ in range(rng.randrange(2, 11)):
         ops.append(g_add(rng, "hhhhiiittg", sysok=True))
     for _ in range(rng.randrange(0, 9)):
-        ops.append(g_beh(rng, plain=plain))
+        ops.append(g_beh(rng, plain=plain, glob=glob))
     for _ in range(rng.randrange(5, maxlen + 1)):
         k = rng.random()
         if k < 0.45:
             ops.append(g_fire(rng))
         elif k < 0.57:
-            ops.append("firetimed")
+            ops.append("firetimed0" if (glob or plain) and rng.random() < 0.4 else "firetimed")
         elif k < 0.67:
             ops.append("tick %d" % rng.choice(TICKS))
         elif k < 0.77:
@@ -139,7 +150,7 @@ def gen_case(rng, maxlen):
         elif k < 0.83:
             ops.append(g_del(rng))
         elif k < 0.88:
-            ops.append(g_beh(rng, plain=plain))
+            ops.append(g_beh(rng, plain=plain, glob=glob))
         elif k < 0.91:
             ops.append("state %d %s" % (rng.randrange(NC), rng.choice(["connected", "disconnected"])))
         elif k < 0.94:
@@ -416,6 +427,9 @@ class Ref:
             self.fire(t)
         elif k == "firetimed":
             self.fire_timed()
+        elif k == "firetimed0":
+            self.conns = [RConn() for _ in range(2)]
+            self.fire_timed()
         elif k == "state":
             self.conns[int(t[1])].connected = t[2] == "connected"
         elif k == "neg":
@@ -536,7 +550,7 @@ def tags(case, outs):
         state = strip_enabled(m.group(2))
         n = len(inv)
         tag = "%s:n%s" % (t[0], n if n < 4 else "4+")
-        if t[0] in ("fire", "firetimed"):
+        if t[0] in ("fire", "firetimed", "firetimed0"):
             tag += ":mut" if (prev and state != prev) else ":same"
             if t[0] == "fire":
                 tag += ":id" if t[5] != "-" else ":noid"
